@@ -8,6 +8,7 @@ def n_of(ctx, quick, thorough):
 
 
 def plan_C01(ctx):
+    e1_chunking(ctx)
     run_family(ctx, "build_obs", n_of(ctx, 300, 6000), perfile=n_of(ctx, 20, 40))
     canary(ctx)
 
@@ -57,8 +58,68 @@ def e2_stored_read(ctx, num):
     run_scenarios(ctx, [lift.lift_stored(b, i) for i, b in enumerate(behs)], "e2stored", perfile=8, shards=16)
 
 
+def tier(ctx):
+    return "quick" if ctx.quick else "thorough"
+
+
+def devs(ctx, module, names, inv, workers=4):
+    """sensitivity runs: each named deviation of a Level-I model must violate (quick: the first one only)"""
+    for d in (names[:1] if ctx.quick else names):
+        tlc_mc(ctx, module, "MC_%s_dev_%s.cfg" % (module, d), workers=workers, expect_violation=inv)
+
+
+def e1_chunking(ctx):
+    tlc_mc(ctx, "Chunking", "MC_Chunking.cfg")
+    tlc_mc(ctx, "Chunking", "MC_Chunking_dev_WriterMaxDocMinus1.cfg", workers=4, expect_violation="BuilderAgrees")
+    tlc_mc(ctx, "Chunking", "MC_Chunking_dev_MergerPreDeleteCard.cfg", workers=4, expect_violation="MergerAgrees")
+
+
+def e1_merge_algo(ctx):
+    tlc_mc(ctx, "MergeAlgo", "MC_MergeAlgo_%s.cfg" % tier(ctx))
+    devs(ctx, "MergeAlgo", ["CopyPathIgnoresDrops", "FreqFromCard", "OneHitAnyFreq", "SamePrefixOnly"], "AllRefine")
+
+
+def e1_algebra(ctx):
+    tlc_mc(ctx, "IceAlgebra", "MC_IceAlgebra_%s.cfg" % tier(ctx))
+
+
+def e1_dv(ctx):
+    tlc_mc(ctx, "DvCodec", "MC_DvCodec.cfg")
+    devs(ctx, "DvCodec", ["IncrementChunk", "NoInvalidate", "NoChunkCheck"], "Delivered")
+
+
+def e1_reuse(ctx):
+    tlc_mc(ctx, "Reuse", "MC_Reuse.cfg")
+    tlc_mc(ctx, "Reuse", "MC_Reuse_dev_StaleOneHit.cfg", workers=4, expect_violation="CountRight")
+    if not ctx.quick:
+        tlc_mc(ctx, "Reuse", "MC_Reuse_dev_NilOnlyEmptyCheck.cfg", workers=4, expect_violation="IterRight")
+
+
+def e1_writer_crc(ctx):
+    tlc_mc(ctx, "WriterCRC", "MC_WriterCRC.cfg", workers=4)
+    tlc_mc(ctx, "WriterCRC", "MC_WriterCRC_dev_SeedFromFooter.cfg", workers=4, expect_violation="CrcCoversFile")
+
+
+def e1_writer_faults(ctx):
+    tlc_mc(ctx, "WriterFaults", "MC_WriterFaults.cfg", workers=4)
+    tlc_mc(ctx, "WriterFaults", "MC_WriterFaults_dev_DropFlushErr.cfg", workers=4, expect_violation="NoSilentSuccess")
+    tlc_mc(ctx, "WriterFaults", "MC_WriterFaults_dev_PollAfterDataNil.cfg", workers=4, expect_violation="NoSilentSuccess")
+
+
+def e1_builder_pool(ctx):
+    tlc_mc(ctx, "BuilderPool", "MC_BuilderPool.cfg")
+    devs(ctx, "BuilderPool", ["NoDvReset", "NoPostingsClear", "NoCountersReset", "PutOnFailure"], "HistoryIndependent")
+
+
+def e1_match_loop(ctx):
+    tlc_mc(ctx, "MatchLoop", "MC_MatchLoop.cfg", workers=4)
+    tlc_mc(ctx, "MatchLoop", "MC_MatchLoop_dev_NoNilCheck.cfg", workers=4, expect_violation="NoCrash")
+    tlc_mc(ctx, "MatchLoop", "MC_MatchLoop_dev_RememberOnlyResolved.cfg", workers=4, expect_violation="ExactUnion")
+
+
 def plan_C05(ctx):
     e1_postings_iter(ctx)
+    e1_chunking(ctx)
     e2_postings_iter(ctx, n_of(ctx, 400, 6000))
     run_family(ctx, "iter_walk", n_of(ctx, 300, 5000), perfile=50)
     run_family(ctx, "iter_big", n_of(ctx, 12, 150), perfile=n_of(ctx, 2, 5))
@@ -75,6 +136,8 @@ def plan_tmp(ctx):
 
 
 def plan_C02(ctx):
+    e1_merge_algo(ctx)
+    e1_chunking(ctx)
     run_family(ctx, "merge_obs", n_of(ctx, 250, 5000), perfile=n_of(ctx, 20, 40))
     run_family(ctx, "stored_sweep", n_of(ctx, 40, 80), perfile=5, seed_off=1)      # merges read stored fields too
     run_family(ctx, "iter_big", n_of(ctx, 8, 100), perfile=2, seed_off=2)          # cardinality across 1024 by drops
@@ -82,12 +145,14 @@ def plan_C02(ctx):
 
 
 def plan_C03(ctx):
+    e1_merge_algo(ctx)
     run_family(ctx, "merge_obs", n_of(ctx, 250, 5000), perfile=n_of(ctx, 20, 40), seed_off=3)
     run_family(ctx, "assoc", n_of(ctx, 40, 600), perfile=10, seed_off=4)
     canary(ctx)
 
 
 def plan_C04(ctx):
+    e1_writer_crc(ctx)
     run_family(ctx, "roundtrip", n_of(ctx, 150, 3000), perfile=n_of(ctx, 10, 30))
     run_family(ctx, "merge_obs", n_of(ctx, 120, 2500), perfile=20, seed_off=5)
     canary(ctx)
@@ -102,6 +167,7 @@ def plan_C06(ctx):
 
 
 def plan_C07(ctx):
+    e1_dv(ctx)
     run_family(ctx, "dv_small", n_of(ctx, 200, 4000), perfile=n_of(ctx, 20, 40))
     run_family(ctx, "dv_walk", n_of(ctx, 24, 300), perfile=2)
     require_cov(ctx, "tag:dv_chunk_gap")
@@ -109,6 +175,7 @@ def plan_C07(ctx):
 
 
 def plan_C08(ctx):
+    e1_reuse(ctx)
     run_family(ctx, "dict_ranges", n_of(ctx, 250, 5000), perfile=n_of(ctx, 20, 40))
     run_family(ctx, "merge_obs", n_of(ctx, 100, 1500), perfile=20, seed_off=6)
     canary(ctx)
@@ -119,8 +186,12 @@ def race_pass(ctx, family, n, prop):
     if not ctx.icex_race:
         build_harness(ctx, race=True)
     out = ctx.sub("race-%s" % family)
-    p = run_icex(ctx, ["genrun", family, ctx.seed * 1000 + 77, n, out, max(1, n // 8)], race=True,
-                 env_extra={"GORACE": "halt_on_error=0 exitcode=0"}, timeout=1800)
+    try:
+        p = run_icex(ctx, ["genrun", family, ctx.seed * 1000 + 77, n, out, max(1, n // 8)], race=True,
+                     env_extra={"GORACE": "halt_on_error=0 exitcode=0"}, timeout=1800)
+    except Crashed:
+        ctx.log("race pass %s: executor crashed inside ice (recorded as violation)" % family)
+        return []
     reports = [r for r in p.stderr.split("WARNING: DATA RACE")[1:]]
     inice = [r for r in reports if "/repo/" in r or "blugelabs/ice" in r]
     traces = sorted(glob.glob(os.path.join(out, "*.ndjson")))
@@ -149,29 +220,34 @@ def plan_C09(ctx):
 
 
 def plan_C10(ctx):
+    e1_chunking(ctx)
     run_family(ctx, "xver", n_of(ctx, 80, 1500), perfile=n_of(ctx, 8, 20))
     run_family(ctx, "xver_big", n_of(ctx, 14, 140), perfile=1)
     canary(ctx)
 
 
 def plan_C11(ctx):
+    e1_writer_crc(ctx)
     run_family(ctx, "roundtrip", n_of(ctx, 150, 3000), perfile=n_of(ctx, 10, 30), seed_off=7)
     run_family(ctx, "merge_obs", n_of(ctx, 150, 3000), perfile=20, seed_off=8)
     canary(ctx)
 
 
 def plan_C12(ctx):
+    e1_writer_faults(ctx)
     run_family(ctx, "faults_w", n_of(ctx, 6, 150), perfile=n_of(ctx, 1, 3))
     require_cov(ctx, "wfault_fail", "wfault_close", "wfault_nil_close")
 
 
 def plan_C13(ctx):
+    e1_reuse(ctx)
     run_family(ctx, "reuse", n_of(ctx, 200, 4000), perfile=n_of(ctx, 20, 40))
     run_family(ctx, "dv_walk", n_of(ctx, 8, 100), perfile=2, seed_off=9)
     canary(ctx)
 
 
 def plan_C14(ctx):
+    e1_builder_pool(ctx)
     run_family(ctx, "pool_seq", n_of(ctx, 150, 3000), perfile=n_of(ctx, 15, 40), env_extra={"VERIF_INLINE": "1"})
     run_family(ctx, "conc_build", n_of(ctx, 40, 600), perfile=n_of(ctx, 10, 20))
     race_pass(ctx, "conc_build", n_of(ctx, 16, 200), "C14")
@@ -184,6 +260,7 @@ def plan_C15(ctx):
 
 
 def plan_C16(ctx):
+    e1_merge_algo(ctx)
     run_family(ctx, "merge_obs", n_of(ctx, 250, 5000), perfile=n_of(ctx, 20, 40), seed_off=10)
     run_family(ctx, "build_obs", n_of(ctx, 100, 2000), perfile=20, seed_off=11)
     run_family(ctx, "roundtrip", n_of(ctx, 60, 1000), perfile=10, seed_off=12)
@@ -191,11 +268,14 @@ def plan_C16(ctx):
 
 
 def plan_C17(ctx):
+    e1_algebra(ctx)
+    e1_merge_algo(ctx)
     run_family(ctx, "assoc", n_of(ctx, 120, 2500), perfile=n_of(ctx, 10, 20))
     canary(ctx)
 
 
 def plan_C18(ctx):
+    e1_match_loop(ctx)
     run_family(ctx, "match", n_of(ctx, 250, 5000), perfile=n_of(ctx, 20, 40))
     canary(ctx)
 
